@@ -264,6 +264,12 @@ func (g *GREASEEncryptedClientHelloExtension) Write(b []byte) (int, error) {
 	}
 	g.CandidatePayloadLens = []uint16{uint16(len(ignored) - tagLen)}
 
+	// The decoded values describe a new ClientHello: drop a payload generated
+	// for an earlier one and let the next Len()/Read() initialise again,
+	// otherwise an already used extension keeps its old payload size.
+	g.payload = nil
+	g.initOnce = sync.Once{}
+
 	return fullLen, nil
 }
 
